@@ -80,6 +80,9 @@ def run_stack_history(hist, acc: Acc | None = None, states: set | None = None):
             items = []
         elif op == "snapshot":
             snaps.append(list(items))
+            if acc is not None:
+                acc.maxi("stack.max_open_snapshots", len(snaps))
+                acc.maxi("stack.max_items_at_snapshot", len(items))
         elif op == "restore":
             before = items
             items = snaps.pop() if snaps else []
@@ -388,6 +391,9 @@ def worker(shard: dict) -> dict:
             else:
                 ops = STACK_OPS if kind == "stack" else INT_OPS
                 w = rnd.choice([(4, 4, 1, 3, 2, 2), (3, 3, 0.3, 4, 3, 3), (5, 2, 0.2, 3, 1, 1), (1, 1, 1, 1, 1, 1)])
+                if shard["length"] > 500:
+                    # growth profiles: hundreds of items and dozens to hundreds of open snapshots (size thresholds, if any, live there)
+                    w = rnd.choice([(10, 2, 0.02, 3, 1, 1), (6, 1, 0.01, 6, 0.5, 0.5), (8, 6, 0.01, 2, 0.6, 0.3), (3, 1, 0.0, 8, 1, 2)])
                 h = rnd.choices(ops, w, k=shard["length"])
             _judge(kind, tuple(h), acc, states)
             if k == 0:
@@ -414,6 +420,7 @@ def main(tier: str, seed: int) -> int:
     for kind in ("stack", "int", "state"):
         for j in range(16):
             shards.append({"mode": "random", "kind": kind, "seed": seed_int("C09", seed, kind, j), "count": per, "length": 200})
+            shards.append({"mode": "random", "kind": kind, "seed": seed_int("C09", seed, kind, "long", j), "count": max(2, per // 20), "length": 3000})
     # largest first
     shards.sort(key=lambda s: (s["mode"] != "exhaustive", s["kind"] != "state"))
     run_workers("pv.checks.c09", "worker", shards, timeout_s=run.pick(600, 3600), acc=run.acc)
@@ -424,7 +431,7 @@ def main(tier: str, seed: int) -> int:
             f"exhaustive: every history of length {L_stack} over {list(STACK_OPS)} on Stack, of length {L_int} over "
             f"{list(INT_OPS)} on SnapshottingInt, every well-nested history of length {L_state} over {list(STATE_OPS)} on "
             "ParserState (all shorter histories are prefixes; state compared after every step), plus seeded random histories of "
-            "length 200. distinct_nontrivial = number of distinct reference states (contents + whole snapshot stack) reached, "
+            "length 200 and, under growth profiles (hundreds of items, up to hundreds of open snapshots; maxima in the evidence), of length 3000. distinct_nontrivial = number of distinct reference states (contents + whole snapshot stack) reached, "
             "counted by the harness; a history is non-trivial when it reaches a state no shorter prefix class reached."
         ),
         assumptions=[
